@@ -34,6 +34,18 @@ Qed.
 Lemma tdel_length t k : (List.length (tdel t k) <= List.length t)%nat.
 Proof. unfold tdel. induction t as [|e r IH]; cbn [filter List.length]; [lia|]. destruct (negb _); cbn [List.length]; lia. Qed.
 
+Lemma tget_tdel_range t a n j : tget (tdel_range t a n) j = if in_range j a n then None else tget t j.
+Proof.
+  unfold tdel_range. induction t as [|[k' v] r IH]; cbn [filter tget fst].
+  - destruct (in_range j a n); reflexivity.
+  - destruct (in_range k' a n) eqn:E; cbn [negb].
+    + rewrite IH. destruct (in_range j a n) eqn:E2; [reflexivity|].
+      cbn [tget]. destruct (N.eqb_spec k' j); [congruence|reflexivity].
+    + cbn [tget]. rewrite IH. destruct (N.eqb_spec k' j) as [E3|E3].
+      * subst. rewrite E. reflexivity.
+      * reflexivity.
+Qed.
+
 Lemma pget_pset l p v q : pget (pset l p v) q = if Nat.eqb q p then Some v else pget l q.
 Proof.
   induction l as [|[p' v'] r IH]; cbn [pset pget].
@@ -108,6 +120,31 @@ Proof.
 Qed.
 
 (* ------------------------------------------------------------------ *)
+(* shape of one step: 9 cases
+   Begin | Sent true | Sent false | BulkFail | Notify (entry) | Notify (none) | Skip | Timeout | End *)
+
+Ltac step_cases H :=
+  match type of H with
+  | step ?fx ?s ?e = Ok ?s1 =>
+      destruct e as [p | p ok | nb | j | | p | p]; cbn [step] in H;
+      [ destruct (pget (pings s) p) eqn:Ep; [discriminate|]; cbv zeta in H; inversion H; subst s1; clear H
+      | destruct (pget (pings s) p) as [pgp|] eqn:Ep; [|discriminate];
+        destruct (p_phase pgp) eqn:Eph; try discriminate;
+        destruct ok; inversion H; subst s1; clear H
+      | destruct (fx && (nb <=? 65536)) eqn:Ebk; [|discriminate]; inversion H; subst s1; clear H
+      | destruct (tget (tbl s) j) as [q|] eqn:Eq;
+        [ destruct (pget (pings s) q) as [pgq|] eqn:Epq; [|discriminate];
+          destruct (p_closed pgq) eqn:Ecl; [discriminate|]; inversion H; subst s1; clear H
+        | inversion H; subst s1; clear H ]
+      | inversion H; subst s1; clear H
+      | destruct (pget (pings s) p) as [pgp|] eqn:Ep; [|discriminate];
+        destruct (p_phase pgp) eqn:Eph; try discriminate; inversion H; subst s1; clear H
+      | destruct (pget (pings s) p) as [pgp|] eqn:Ep; [|discriminate];
+        destruct (p_phase pgp) eqn:Eph; try discriminate;
+        destruct (p_closed pgp || p_fired pgp) eqn:Erdy; [|discriminate]; inversion H; subst s1; clear H ]
+  end.
+
+(* ------------------------------------------------------------------ *)
 (* the basic invariant: what a table entry says about the call it points to *)
 
 Record Inv (s : state) : Prop := {
@@ -124,43 +161,73 @@ Proof.
   intros H. constructor; cbn [init tbl pings next tget pget keys map]; try discriminate; auto. constructor.
 Qed.
 
-Ltac pg_cases q p :=
-  rewrite ?pget_pset in *; destruct (Nat.eqb_spec q p); [subst|].
+Lemma keys_tdel_range_nodup t a n : NoDup (keys t) -> NoDup (keys (tdel_range t a n)).
+Proof.
+  unfold keys, tdel_range. induction t as [|[k' v] r IH]; cbn [filter map fst]; intros H; [constructor|].
+  inversion H; subst. destruct (in_range k' a n); cbn [negb map fst]; [auto|].
+  constructor; [|auto]. intros Hin. apply H2. clear -Hin.
+  induction r as [|[k v] r IH]; cbn [filter map fst In] in *; [tauto|].
+  destruct (in_range k a n); cbn [negb map fst In] in *; tauto.
+Qed.
 
+(* a step changes the record of at most one call, and only its flags/phase *)
 Lemma Inv_step fx s e s' : Inv s -> step fx s e = Ok s' -> Inv s'.
 Proof.
-  intros [He Hf Hn Hx Hi] H. destruct e as [p ok| i | | p | p]; cbn [step] in H.
+  intros [He Hf Hn Hx Hi] H.
+  assert (Hfresh : forall p, pget (pings s) p = None -> forall i q, tget (tbl s) i = Some q -> q <> p).
+  { intros p0 Ep0 i q Hq E. subst q. destruct (He _ _ Hq) as (pg & Hp & _). congruence. }
+  step_cases H.
   - (* Begin *)
-    destruct (pget (pings s) p) eqn:Ep; [discriminate|]. cbv zeta in H. inversion H; subst s'; clear H.
-    assert (Hfresh : forall i q, tget (tbl s) i = Some q -> q <> p).
-    { intros i q Hq E. subst q. destruct (He _ _ Hq) as (pg & Hp & _). congruence. }
     constructor; cbn [tbl pings next].
-    + intros i q Hq.
-      assert (Hq' : tget (tset (tbl s) (next s) p) i = Some q).
-      { destruct ok; [exact Hq|]. destruct fx; [|exact Hq]. cbv iota in Hq.
-        rewrite tget_tdel in Hq. destruct (i =? next s); [discriminate|exact Hq]. }
-      rewrite tget_tset in Hq'. destruct (N.eqb_spec i (next s)) as [E|E].
-      * inversion Hq'; subst q i. rewrite pget_pset, Nat.eqb_refl.
-        destruct ok.
-        -- eexists; split; [reflexivity|]. cbn. auto.
-        -- destruct fx.
-           ++ cbv iota in Hq. rewrite tget_tdel, N.eqb_refl in Hq. discriminate.
-           ++ eexists; split; [reflexivity|]. cbn. auto.
-      * destruct (He _ _ Hq') as (pg & Hp & Hrest). exists pg. split; [|exact Hrest].
+    + intros i q Hq. rewrite tget_tset in Hq. destruct (N.eqb_spec i (next s)) as [E|E].
+      * inversion Hq; subst q i. rewrite pget_pset, Nat.eqb_refl. eexists; split; [reflexivity|]. cbn. auto.
+      * destruct (He _ _ Hq) as (pg & Hp & Hrest). exists pg. split; [|exact Hrest].
         rewrite pget_pset. destruct (Nat.eqb_spec q p); [|exact Hp]. exfalso. eapply Hfresh; eauto.
     + intros q pg. rewrite pget_pset. destruct (Nat.eqb_spec q p).
       * intros E; inversion E; reflexivity.
       * apply Hf.
-    + destruct ok; [apply keys_tset_nodup; auto|]. destruct fx; [apply keys_tdel_nodup|]; apply keys_tset_nodup; auto.
+    + apply keys_tset_nodup; auto.
     + unfold u16. lia.
     + intros q pg. rewrite pget_pset. destruct (Nat.eqb_spec q p).
       * intros E; inversion E; cbn. exact Hx.
       * apply Hi.
+  - (* Sent true *)
+    unfold set_pings. constructor; cbn [tbl pings next]; auto.
+    + intros i q Hq. destruct (He _ _ Hq) as (pg' & Hp' & Hid' & Hc' & Hr').
+      rewrite pget_pset. destruct (Nat.eqb_spec q p).
+      * subst q. rewrite Ep in Hp'. inversion Hp'; subst pg'. eexists; split; [reflexivity|]. cbn. auto.
+      * exists pg'. auto.
+    + intros q pg'. rewrite pget_pset. destruct (Nat.eqb_spec q p).
+      * intros E; inversion E; cbn. eapply Hf; eauto.
+      * apply Hf.
+    + intros q pg'. rewrite pget_pset. destruct (Nat.eqb_spec q p).
+      * intros E; inversion E; cbn. eapply Hi; eauto.
+      * apply Hi.
+  - (* Sent false *)
+    constructor; cbn [tbl pings next]; auto.
+    + intros i q Hq.
+      assert (Hq' : tget (tbl s) i = Some q).
+      { destruct fx; [|exact Hq]. rewrite tget_tdel in Hq. destruct (i =? p_id pgp); [discriminate|exact Hq]. }
+      destruct (He _ _ Hq') as (pg' & Hp' & Hid' & Hc' & Hr').
+      rewrite pget_pset. destruct (Nat.eqb_spec q p).
+      * subst q. rewrite Ep in Hp'. inversion Hp'; subst pg'. eexists; split; [reflexivity|]. cbn. auto.
+      * exists pg'. auto.
+    + intros q pg'. rewrite pget_pset. destruct (Nat.eqb_spec q p).
+      * intros E; inversion E; cbn. eapply Hf; eauto.
+      * apply Hf.
+    + destruct fx; [apply keys_tdel_nodup|]; auto.
+    + intros q pg'. rewrite pget_pset. destruct (Nat.eqb_spec q p).
+      * intros E; inversion E; cbn. eapply Hi; eauto.
+      * apply Hi.
+  - (* BulkFail *)
+    constructor; cbn [tbl pings next]; auto.
+    + intros i q Hq. rewrite tget_tdel_range in Hq. destruct (in_range i (next s) nb); [discriminate|]. auto.
+    + apply keys_tdel_range_nodup; auto.
+    + unfold u16. lia.
   - (* Notify *)
-    destruct (tget (tbl s) i) as [q|] eqn:Eq; [|inversion H; subst; constructor; auto].
-    destruct (He _ _ Eq) as (pg & Hp & Hid & Hc & Hr). rewrite Hp, Hc in H.
-    inversion H; subst s'; clear H. constructor; cbn [tbl pings next].
-    + intros j q' Hq'. rewrite tget_tdel in Hq'. destruct (N.eqb_spec j i) as [E|E]; [discriminate|].
+    destruct (He _ _ Eq) as (pg & Hp & Hid & Hc & Hr). rewrite Hp in Epq. inversion Epq; subst pgq.
+    constructor; cbn [tbl pings next].
+    + intros i q' Hq'. rewrite tget_tdel in Hq'. destruct (N.eqb_spec i j) as [E|E]; [discriminate|].
       destruct (He _ _ Hq') as (pg' & Hp' & Hid' & Hrest). exists pg'. split; [|auto].
       rewrite pget_pset. destruct (Nat.eqb_spec q' q); [|exact Hp']. subst q'. congruence.
     + intros q' pg'. rewrite pget_pset. destruct (Nat.eqb_spec q' q).
@@ -171,10 +238,9 @@ Proof.
     + intros q' pg'. rewrite pget_pset. destruct (Nat.eqb_spec q' q).
       * intros E; inversion E; cbn. eapply Hi; eauto.
       * apply Hi.
-  - inversion H; subst; constructor; auto.
+  - constructor; auto.
+  - constructor; auto.
   - (* Timeout *)
-    destruct (pget (pings s) p) as [pg|] eqn:Ep; [|discriminate].
-    destruct (p_phase pg) eqn:Eph; [|discriminate]. inversion H; subst s'; clear H.
     unfold set_pings. constructor; cbn [tbl pings next]; auto.
     + intros i q Hq. destruct (He _ _ Hq) as (pg' & Hp' & Hid' & Hc' & Hr').
       rewrite pget_pset. destruct (Nat.eqb_spec q p).
@@ -187,11 +253,8 @@ Proof.
       * intros E; inversion E; cbn. eapply Hi; eauto.
       * apply Hi.
   - (* End *)
-    destruct (pget (pings s) p) as [pg|] eqn:Ep; [|discriminate].
-    destruct (p_phase pg) eqn:Eph; [|discriminate].
-    destruct (p_closed pg || p_fired pg); [|discriminate]. inversion H; subst s'; clear H.
     constructor; cbn [tbl pings next]; auto.
-    + intros i q Hq. rewrite tget_tdel in Hq. destruct (N.eqb_spec i (p_id pg)) as [E|E]; [discriminate|].
+    + intros i q Hq. rewrite tget_tdel in Hq. destruct (N.eqb_spec i (p_id pgp)) as [E|E]; [discriminate|].
       destruct (He _ _ Hq) as (pg' & Hp' & Hid' & Hrest). exists pg'. split; [|auto].
       rewrite pget_pset. destruct (Nat.eqb_spec q p); [|exact Hp']. subst q. congruence.
     + intros q pg'. rewrite pget_pset. destruct (Nat.eqb_spec q p).
@@ -211,12 +274,15 @@ Proof. intros Hn. apply run_ind; [apply Inv_init; exact Hn|]. intros; eapply Inv
 
 Lemma step_no_panic fx s e : Inv s -> step fx s e <> Panic.
 Proof.
-  intros [He _ _ _ _]. destruct e as [p ok| i | | p | p]; cbn [step]; try discriminate.
+  intros [He _ _ _ _]. destruct e as [p | p ok | nb | i | | p | p]; cbn [step]; try discriminate.
   - destruct (pget (pings s) p); discriminate.
+  - destruct (pget (pings s) p) as [pg|]; [|discriminate]. destruct (p_phase pg); try discriminate.
+    destruct ok; discriminate.
+  - destruct (fx && (nb <=? 65536)); discriminate.
   - destruct (tget (tbl s) i) as [q|] eqn:Eq; [|discriminate].
     destruct (He _ _ Eq) as (pg & Hp & _ & Hc & _). rewrite Hp, Hc. discriminate.
   - destruct (pget (pings s) p) as [pg|]; [|discriminate]. destruct (p_phase pg); discriminate.
-  - destruct (pget (pings s) p) as [pg|]; [|discriminate]. destruct (p_phase pg); [|discriminate].
+  - destruct (pget (pings s) p) as [pg|]; [|discriminate]. destruct (p_phase pg); try discriminate.
     destruct (p_closed pg || p_fired pg); discriminate.
 Qed.
 
@@ -231,54 +297,47 @@ Proof.
 Qed.
 
 (* ------------------------------------------------------------------ *)
-(* no leak: every table entry belongs to a call that is still blocked in its select *)
+(* no leak: every table entry belongs to a call that has not returned
+   (it is inside its send or blocked in its select) *)
 
 Definition owned_by_waiting (s : state) : Prop :=
   forall i q, tget (tbl s) i = Some q -> waiting s q = true.
 
 Definition failed_begin (e : event) : bool :=
-  match e with Begin _ false => true | _ => false end.
-(* the recorded defect class of DESIGN section 11 #24: the history contains a failed send *)
+  match e with Sent _ false => true | _ => false end.
+(* the defect class of DESIGN section 11 #24 (code before 659869d): the history contains a failed send *)
 Definition known_C19_sendfail (tr : list event) : bool := existsb failed_begin tr.
 
 Lemma owned_step fx s e s' :
   (fx = true \/ failed_begin e = false) ->
   Inv s -> owned_by_waiting s -> step fx s e = Ok s' -> owned_by_waiting s'.
 Proof.
-  intros Hfx HI Ho H. pose proof (Inv_step _ _ _ _ HI H) as HI'.
+  intros Hfx HI Ho H.
   destruct HI as [He Hf Hn Hx Hi]. unfold owned_by_waiting, waiting in *.
-  destruct e as [p ok| i | | p | p]; cbn [step] in H.
-  - destruct (pget (pings s) p) eqn:Ep; [discriminate|]. cbv zeta in H. inversion H; subst s'; clear H.
-    cbn [tbl pings]. intros i q Hq. rewrite pget_pset.
-    assert (Hfresh : forall i q, tget (tbl s) i = Some q -> q <> p).
-    { intros i0 q0 Hq0 E. subst q0. destruct (He _ _ Hq0) as (pg & Hp & _). congruence. }
-    destruct ok; cbv iota in Hq.
-    + rewrite tget_tset in Hq. destruct (N.eqb_spec i (next s)).
-      * inversion Hq; subst q. rewrite Nat.eqb_refl. reflexivity.
-      * destruct (Nat.eqb_spec q p); [exfalso; eapply Hfresh; eauto|]. eapply Ho; eauto.
-    + destruct Hfx as [->|Hfb]; [|discriminate]. cbv iota in Hq.
-      rewrite tget_tdel in Hq. destruct (N.eqb_spec i (next s)); [discriminate|].
-      rewrite tget_tset in Hq. destruct (N.eqb_spec i (next s)); [lia|].
-      destruct (Nat.eqb_spec q p); [exfalso; eapply Hfresh; eauto|]. eapply Ho; eauto.
-  - destruct (tget (tbl s) i) as [q|] eqn:Eq; [|inversion H; subst; auto].
-    destruct (He _ _ Eq) as (pg & Hp & Hid & Hc & Hr). rewrite Hp, Hc in H.
-    inversion H; subst s'; clear H. cbn [tbl pings]. intros j q' Hq'.
-    rewrite tget_tdel in Hq'. destruct (N.eqb_spec j i); [discriminate|].
-    rewrite pget_pset. destruct (Nat.eqb_spec q' q).
-    + subst q'. destruct (He _ _ Hq') as (pg' & Hp' & Hid' & _). congruence.
+  assert (Hfresh : forall p, pget (pings s) p = None -> forall i q, tget (tbl s) i = Some q -> q <> p).
+  { intros p0 Ep0 i q Hq E. subst q. destruct (He _ _ Hq) as (pg & Hp & _). congruence. }
+  step_cases H; cbn [tbl pings set_pings]; intros ii qq Hq; rewrite ?pget_pset.
+  - rewrite tget_tset in Hq. destruct (N.eqb_spec ii (next s)).
+    + inversion Hq; subst qq. rewrite Nat.eqb_refl. reflexivity.
+    + destruct (Nat.eqb_spec qq p); [exfalso; eapply Hfresh; eauto|]. eapply Ho; eauto.
+  - destruct (Nat.eqb_spec qq p); [reflexivity|]. eapply Ho; eauto.
+  - destruct Hfx as [->|Hfb]; [|discriminate].
+    rewrite tget_tdel in Hq. destruct (N.eqb_spec ii (p_id pgp)); [discriminate|].
+    destruct (Nat.eqb_spec qq p).
+    + subst qq. destruct (He _ _ Hq) as (pg' & Hp' & Hid' & _). congruence.
     + eapply Ho; eauto.
-  - inversion H; subst; auto.
-  - destruct (pget (pings s) p) as [pg|] eqn:Ep; [|discriminate].
-    destruct (p_phase pg) eqn:Eph; [|discriminate]. inversion H; subst s'; clear H.
-    unfold set_pings; cbn [tbl pings]. intros i q Hq. rewrite pget_pset.
-    destruct (Nat.eqb_spec q p); [reflexivity|]. eapply Ho; eauto.
-  - destruct (pget (pings s) p) as [pg|] eqn:Ep; [|discriminate].
-    destruct (p_phase pg) eqn:Eph; [|discriminate].
-    destruct (p_closed pg || p_fired pg); [|discriminate]. inversion H; subst s'; clear H.
-    cbn [tbl pings]. intros i q Hq. rewrite tget_tdel in Hq.
-    destruct (N.eqb_spec i (p_id pg)); [discriminate|]. rewrite pget_pset.
-    destruct (Nat.eqb_spec q p).
-    + subst q. destruct (He _ _ Hq) as (pg' & Hp' & Hid' & _). congruence.
+  - rewrite tget_tdel_range in Hq. destruct (in_range ii (next s) nb); [discriminate|]. eapply Ho; eauto.
+  - rewrite tget_tdel in Hq. destruct (N.eqb_spec ii j); [discriminate|].
+    destruct (Nat.eqb_spec qq q).
+    + subst qq. destruct (He _ _ Hq) as (pg' & Hp' & Hid' & _).
+      destruct (He _ _ Eq) as (pg'' & Hp'' & Hid'' & _). congruence.
+    + eapply Ho; eauto.
+  - eapply Ho; eauto.
+  - eapply Ho; eauto.
+  - destruct (Nat.eqb_spec qq p); [reflexivity|]. eapply Ho; eauto.
+  - rewrite tget_tdel in Hq. destruct (N.eqb_spec ii (p_id pgp)); [discriminate|].
+    destruct (Nat.eqb_spec qq p).
+    + subst qq. destruct (He _ _ Hq) as (pg' & Hp' & Hid' & _). congruence.
     + eapply Ho; eauto.
 Qed.
 
@@ -307,22 +366,22 @@ Proof.
   intros Hn. apply owned_run; [auto|apply Inv_init; exact Hn|]. intros i q; cbn; discriminate.
 Qed.
 
-(* code as it is: for every history without a failed send *)
+(* code before the repair: for every history without a failed send *)
 Theorem no_leak_partial n tr s : n < 65536 -> known_C19_sendfail tr = false ->
   run false (init n) tr = Ok s -> owned_by_waiting s.
 Proof.
   intros Hn Hk. apply owned_run; [auto|apply Inv_init; exact Hn|]. intros i q; cbn; discriminate.
 Qed.
 
-(* code as it is: one failed send leaves an entry behind whose owner has returned *)
+(* code before the repair: one failed send leaves an entry behind whose owner has returned *)
 Theorem no_leak_refuted :
   exists tr s, known_C19_sendfail tr = true /\ run false init_go tr = Ok s /\ ~ owned_by_waiting s.
 Proof.
-  exists [Begin 0%nat false]. eexists. split; [reflexivity|]. split; [reflexivity|].
+  exists [Begin 0%nat; Sent 0%nat false]. eexists. split; [reflexivity|]. split; [vm_compute; reflexivity|].
   intros H. specialize (H 1 0%nat eq_refl). discriminate.
 Qed.
 
-(* consequence: when no call is blocked the table is empty *)
+(* consequence: when no call is outstanding the table is empty *)
 Lemma empty_when_idle s : owned_by_waiting s -> (forall q, waiting s q = false) -> tbl s = [].
 Proof.
   intros Ho Hw. destruct (tbl s) as [|[k v] r] eqn:E; [reflexivity|].
@@ -332,7 +391,7 @@ Qed.
 
 (* non-vacuity: a history with calls, replies and timeouts satisfying the hypotheses *)
 Definition ex_trace : list event :=
-  [Begin 0%nat true; Begin 1%nat true; Notify 2; Timeout 0%nat; End 1%nat; End 0%nat].
+  [Begin 0%nat; Sent 0%nat true; Begin 1%nat; Notify 2; Sent 1%nat true; Timeout 0%nat; End 1%nat; End 0%nat].
 Example no_leak_nonvacuous :
   exists s, known_C19_sendfail ex_trace = false /\ run false init_go ex_trace = Ok s /\
             result_of s 0%nat = Some RTimeout /\ result_of s 1%nat = Some RNil /\ tbl s = [].
